@@ -186,6 +186,18 @@ def rule_cli_generate(ctx):
             name = leaf[1].split('::')[-1] if leaf[0] in ('ctor', 'global') else (leaf[1].split('::')[-1] if leaf[0] == 'agg' else leaf[0])
             if key:
                 tbl.setdefault(key, set()).add(name)
+        # the flag value is matched case-insensitively (lower-cased before the table is consulted)
+        lowered = None
+        for conds, leaf in P.leaves(t):
+            for c in conds:
+                if c[0] == 'match' and c[2][0] == 'lit' and c[1] is not None:
+                    xs_ = {x for _, xs in TM.paths(c[1]) for x in xs}
+                    lowered = ('lower' in xs_) if lowered is None else (lowered and 'lower' in xs_)
+        if lowered is False:
+            obs.append(bad('FLAG-PLUMB', 'generate/visibility-case', 'the --module-visibility value is compared with the keywords as written (no lower-casing)', mv[0].get('sp', ''),
+                           '`-m Pub` becomes the restricted visibility `pub(Pub)`: invalid code instead of a public module'))
+        elif lowered:
+            obs.append(ok('FLAG-PLUMB', 'generate/visibility-case', 'the flag value is lower-cased before it is matched', mv[0].get('sp', '')))
         want_pub = tbl.get('pub'), tbl.get('<absent>')
         if tbl.get('pub') == {'Public'} and tbl.get('<absent>') == {'Public'} and tbl.get('inherited') == {'Inherited'}:
             obs.append(ok('FLAG-PLUMB', 'generate/visibility-table', 'pub -> Public, inherited -> Inherited, absent -> Public, other -> restricted path', mv[0].get('sp', '')))
@@ -422,6 +434,15 @@ def rule_introspect(ctx):
             else:
                 obs.append(bad('REQ-BUILD', 'introspect/custom-headers', 'HeaderMap::append(%s, %s) (in loop: %s)' % (sorted(fa), sorted(fb), in_loop), n_.get('sp', ''),
                                'header name/value swapped or only one header sent'))
+    # the default headers are put on the builder before the user's: `RequestBuilder::headers` replaces same-named entries
+    dh = [n_ for n_ in by.get('headers', [])]
+    if dh and hdrs:
+        first_custom = min((_posn(x_) for x_ in hdrs))
+        if fl.owner_of(dh[0]) is fl.owner_of(hdrs[0]) and _posn(dh[0]) > first_custom:
+            obs.append(bad('REQ-BUILD', 'introspect/default-headers-first', 'the default headers are merged in after the custom ones (`.headers(..)` replaces entries of the same name)', dh[0].get('sp', ''),
+                           'a user-supplied Accept / Content-Type header never reaches the server'))
+        elif fl.owner_of(dh[0]) is fl.owner_of(hdrs[0]):
+            obs.append(ok('REQ-BUILD', 'introspect/default-headers-first', 'default headers are set before the custom ones are added', dh[0].get('sp', '')))
     ba = by.get('bearer_auth', [])
     if ba:
         t = fl.eval(ba[0]['args'][0])
